@@ -20,6 +20,12 @@ func (g *Grammar) Scalar(t *rapid.T) string { return (&gen{t: t, g: g}).scalar(g
 // Join draws `X <op> [modifiers] Y` with label-set-biased sides (see join()).
 func (g *Grammar) Join(t *rapid.T) string { return (&gen{t: t, g: g}).join(g.MaxDepth).s }
 
+// Reattach draws a "re-attach" expression: a label L is excluded on one side ({L=""}, without(L), one-to-one
+// ignoring(L), an aggregation dropping it) and brought back through a list of 2-3 names in which L takes every
+// position: group_left(..)/group_right(..) from a side that carries it, or by(..)/on(..) lists mixing excluded and
+// present labels.
+func (g *Grammar) Reattach(t *rapid.T) string { return (&gen{t: t, g: g}).joinReattach().s }
+
 // Top draws a top-level rule expression: Vector, `X or Y` (OrTop), or a Scalar (ScalarTop).
 func (g *Grammar) Top(t *rapid.T) string {
 	x := &gen{t: t, g: g}
@@ -85,9 +91,11 @@ func (x *gen) operand(e ex) string {
 
 func quote(s string) string { return strconv.Quote(s) }
 
-func (x *gen) matcher() string {
+func (x *gen) matcher() string { return x.matcherOn(x.pick(x.g.U.Labels, "mlabel")) }
+
+// matcherOn draws a matcher (any enabled type and value) on the given label.
+func (x *gen) matcherOn(l string) string {
 	g := x.g
-	l := x.pick(g.U.Labels, "mlabel")
 	ops := []string{"="}
 	if g.NegMatchers {
 		ops = append(ops, "!=")
@@ -131,8 +139,17 @@ func (x *gen) selectorCore(minMatchers int) string {
 		nm = minMatchers
 	}
 	var ms []string
+	// one selector in three with several matchers puts them all on the SAME label (every type and order)
+	same := ""
+	if nm >= 2 && x.chance(1, 3, "samelabel") {
+		same = x.pick(g.U.Labels, "mlabel")
+	}
 	for i := 0; i < nm; i++ {
-		ms = append(ms, x.matcher())
+		if same != "" {
+			ms = append(ms, x.matcherOn(same))
+		} else {
+			ms = append(ms, x.matcher())
+		}
 	}
 	if g.Nameless && x.chance(1, 12, "nameless") {
 		ms = append([]string{`__name__=` + quote(m)}, ms...)
@@ -287,7 +304,7 @@ func (x *gen) vector(d int) ex {
 			return ex{"absent_over_time(" + x.matrix(d-1) + ")", true}
 		}
 		if x.chance(2, 3, "abssel") {
-			return ex{"absent(" + x.selectorCore(0) + ")", true}
+			return ex{"absent(" + x.selectorCore(x.n(3, "absmin")) + ")", true}
 		}
 		return ex{"absent(" + x.vector(d-1).s + ")", true}
 	case "const":
@@ -661,7 +678,9 @@ func (x *gen) join(d int) ex {
 		d = 1
 	}
 	if x.g.Aggregations {
-		switch k := x.n(12, "directed"); {
+		switch k := x.n(14, "directed"); {
+		case k >= 12:
+			return x.joinReattach()
 		case k >= 10:
 			return x.joinByOverBy()
 		case k >= 8:
@@ -719,6 +738,114 @@ func (x *gen) without1(ls []string, drop string) []string {
 	for _, l := range ls {
 		if l != drop {
 			out = append(out, l)
+		}
+	}
+	return out
+}
+
+// perm shuffles a list with rapid draws.
+func (x *gen) perm(ls []string, label string) []string {
+	out := append([]string{}, ls...)
+	for i := len(out) - 1; i > 0; i-- {
+		j := x.n(i+1, label+".perm")
+		out[i], out[j] = out[j], out[i]
+	}
+	return out
+}
+
+// joinReattach: see Grammar.Reattach.
+func (x *gen) joinReattach() ex {
+	g := x.g
+	labels := g.U.Labels
+	L := x.pick(labels, "raL")
+	others := x.without1(labels, L)
+	if len(others) < 2 {
+		return x.joinOverlap()
+	}
+	M := x.pick(others, "raM")
+	rest := x.without1(others, M)
+	sel := func() ex { return ex{x.selectorCore(0), true} }
+	arop := func() string {
+		if g.Arith && (!g.Compare || x.chance(2, 3, "raar")) {
+			return x.pick(arithOps, "arop")
+		}
+		if g.Compare {
+			return x.pick(cmpOps, "cmpop")
+		}
+		return "+"
+	}
+	// the side on which L is excluded
+	hasM := true
+	var many ex
+	ps := []prod{{"without", 4}, {"by", 2}, {"agg", 1}}
+	if g.EmptyValues {
+		ps = append(ps, prod{"empty", 5})
+	}
+	if g.Ignoring && (g.Arith || g.Compare) {
+		ps = append(ps, prod{"ignoring", 3})
+	}
+	switch x.choose(ps, "ramany") {
+	case "empty":
+		m := x.pick(g.U.Metrics, "metric")
+		ms := []string{L + `=""`}
+		if x.chance(1, 3, "raextra") {
+			ms = append(ms, x.matcher())
+		}
+		many = ex{m + "{" + strings.Join(x.perm(ms, "ramatch"), ", ") + "}", true}
+	case "ignoring":
+		many = ex{sel().s + " " + arop() + " ignoring(" + strings.Join(x.perm(x.someOf(rest, []string{L}, "raign"), "raignp"), ", ") + ") " + sel().s, false}
+	case "by":
+		many = x.aggWith(sel(), "by", x.perm(x.someOf(rest, []string{M}, "raby"), "rabyp"))
+	case "agg":
+		many = x.aggWith(sel(), "", nil)
+		hasM = false
+	default:
+		many = x.aggWith(sel(), "without", x.perm(x.someOf(rest, []string{L}, "rawo"), "rawop"))
+	}
+	// 2-3 names holding L, in every order
+	names := []string{L}
+	pool := x.perm(rest, "rapool")
+	k := 1 + x.n(2, "ranames")
+	for i := 0; i < k && i < len(pool); i++ {
+		names = append(names, pool[i])
+	}
+	if g.NameGrouping && x.chance(1, 8, "raname") {
+		names = append(names, "__name__")
+	}
+	names = x.perm(names, "ranamesp")
+	onList := []string{}
+	if hasM {
+		onList = []string{M}
+	}
+	var out ex
+	shapes := []prod{{"by", 2}}
+	if g.On && (g.Arith || g.Compare) {
+		shapes = append(shapes, prod{"on", 2})
+		if g.GroupLeft {
+			shapes = append(shapes, prod{"gl", 5})
+		}
+		if g.GroupRight {
+			shapes = append(shapes, prod{"gr", 3})
+		}
+	}
+	switch x.choose(shapes, "rashape") {
+	case "gl":
+		out = ex{x.operand(many) + " " + arop() + " on(" + strings.Join(onList, ", ") + ") group_left(" + strings.Join(names, ", ") + ") " + sel().s, false}
+	case "gr":
+		out = ex{sel().s + " " + arop() + " on(" + strings.Join(onList, ", ") + ") group_right(" + strings.Join(names, ", ") + ") " + x.operand(many), false}
+	case "on":
+		out = ex{x.operand(many) + " " + arop() + " on(" + strings.Join(x.perm(append(append([]string{}, names...), onList...), "raonp"), ", ") + ") " + sel().s, false}
+	default:
+		out = x.aggWith(many, "by", x.perm(append(append([]string{}, names...), onList...), "rabyo"))
+	}
+	switch x.n(6, "rawrap") {
+	case 0:
+		if g.VectorScalar && g.Compare {
+			return ex{x.operand(out) + " > " + x.pick(numbers, "num"), false}
+		}
+	case 1:
+		if g.By {
+			return x.aggWith(out, "by", x.perm(append(append([]string{}, names...), onList...), "rawrapby"))
 		}
 	}
 	return out
